@@ -107,6 +107,18 @@ chk("C12", "model_checking",
     "TLA+ spec Symmetry.tla (exact integer / Z[sqrt3] algebra) model-checked by TLC on exported tables + replay into rotations()/Umis",
     "DESIGN.md section 7 C12")
 
+chk("C01", "model_checking",
+    "Cell.tla carries a unit cell as an exact integer metric tensor through the graph of representations (cell, A, B, A^-1, reciprocal "
+    "cell, A of the reciprocal cell). TLC enumerates every positive-definite metric of the configured box that satisfies the property's "
+    "Gram bound (strongly oblique ones included) x every path of depth 4, checks the adjugate identities (G adj G = det G I, "
+    "adj adj G = det G G, positivity of Q*) and emits exact det G, adj G, Q*(h). Every path is stepped through the real functions of "
+    "xfab.tools and xfab.laue for three scale factors; after each call the float result is projected back to the metric "
+    "(A'A, B'B with the module's 2pi weight, V^2, sintl^2, cell parameters) and compared with the exact rational.",
+    "Trusted: TLC integer algebra (overflow aborts), sqrt/acos used to build the float cell, tolerance 1e-9 relative / 1e-7 deg. The continuum is "
+    "covered on a dense rational lattice, not proved for all reals.",
+    "TLA+ spec Cell.tla (exact metric algebra as oracle) model-checked by TLC + replay of every behaviour into both modules with projection to the metric",
+    "DESIGN.md section 7 C01")
+
 ALL = ["C%02d" % i for i in range(1, 21)]
 
 
